@@ -106,9 +106,9 @@ def run_harnesses(names, repo='/repo', jobs=8, harness_timeout=600, total_timeou
             'failed_checks': [{'description': c['description'], 'function': c.get('function'),
                                'file': c.get('location', {}).get('file'), 'line': c.get('location', {}).get('line'),
                                'category': c.get('category')} for c in failed],
-            'solver': solver.get(hid, {}).get('configuration', {}).get('solver'),
-            'solver_s': solver.get(hid, {}).get('cbmc_stats', {}).get('runtime_decision_procedure_s'),
-            'symex_s': solver.get(hid, {}).get('cbmc_stats', {}).get('runtime_symex_s'),
+            'solver': ((solver.get(hid) or {}).get('configuration') or {}).get('solver'),
+            'solver_s': ((solver.get(hid) or {}).get('cbmc_stats') or {}).get('runtime_decision_procedure_s'),
+            'symex_s': ((solver.get(hid) or {}).get('cbmc_stats') or {}).get('runtime_symex_s'),
             'property_details': pdet.get(hid),
         }
         res['harnesses'][short] = h
@@ -182,3 +182,20 @@ def native_replay(harness, test_text, test_name, repo='/repo'):
     out = p.stdout + '\n' + p.stderr
     reproduced = bool(re.search(r'test result: FAILED', out)) and test_name in out
     return reproduced, out[-4000:]
+
+
+if __name__ == '__main__':
+    import sys
+    args = sys.argv[1:]
+    to = 300
+    if args and args[0].startswith('--timeout='):
+        to = int(args.pop(0).split('=')[1])
+    r = run_harnesses(args, harness_timeout=to, jobs=14)
+    print('status', r['status'], 'wall', round(r['wall_s'], 1), r['reason'][:3000])
+    for n, h in sorted(r['harnesses'].items()):
+        print(f"{n:50s} {h['status']:10s} checks={h['checks_total']} failed={h['checks_failed']} covers={h['covers_satisfied']}/{h['covers_total']} "
+              f"solver_s={h['solver_s']} symex_s={h['symex_s']} dur_ms={h['duration_ms']}")
+        for fc in h['failed_checks'][:6]:
+            print('      FAILED:', fc['description'], fc['file'], fc['line'])
+    if r['status'] == 'inconclusive' and not r['harnesses']:
+        print(r.get('log_tail', '')[-3000:])
